@@ -1,4 +1,5 @@
 import ShellOp.Proofs.Combine
+import ShellOp.Proofs.TransCombine
 /-!
 # C07 — combining adjacent tasks keeps every binding context, in order
 
@@ -361,5 +362,22 @@ theorem not_a_queue_task_merges_nothing (qs : QSet) (t : Task) (stop : Option (T
 
 example : QSet.get [(1, [{ id := 5, hook := 1 }, { id := 6, hook := 1 }])]
     ({ id := 9, hook := 1, queue := 0 } : Task).queue = none := by decide
+
+/-! ### Tie T4: the compaction loop of the model is the code
+
+`ShellOp.Trans.compactInt` / `compactTwin` are regenerated on every run from the index loop
+`for i := 0; i < len(combinedContext); i++ { … combinedContext[i+1] … }` of
+`combineBindingContextForHook` (combine_binding_context.go) and of its exported twin
+`CombineBindingContextForHook` (operator.go) by `extract/translate.go`. -/
+
+/-- The group-compaction loop as translated from the current source — both copies — computes, for
+every list of contexts, what the model's `compactGo` computes (and therefore `Spec.compact`:
+`Proofs.Combine.compactGo_eq`). -/
+theorem translated_compaction_eq_model (l : List Ctx) :
+    ShellOp.Trans.compactInt l = compactGo l ∧ ShellOp.Trans.compactTwin l = compactGo l :=
+  ⟨ShellOp.Proofs.TransCombine.compactInt_eq l, ShellOp.Proofs.TransCombine.compactTwin_eq l⟩
+
+example : ShellOp.Trans.compactInt [⟨1, 2, 1⟩, ⟨2, 2, 1⟩, ⟨3, 1, 0⟩, ⟨4, 2, 2⟩, ⟨5, 2, 1⟩]
+    = [⟨2, 2, 1⟩, ⟨3, 1, 0⟩, ⟨4, 2, 2⟩, ⟨5, 2, 1⟩] := by decide
 
 end ShellOp.Combine.C07
